@@ -307,7 +307,11 @@ PROPS["C16"] = dict(
          "(rpqclose) the real ReadyPipeQueue through the facade: 1..3 pop() calls parked before / started after close(), with 0..2 sender "
          "handles of registered pipes (all three socket-level sender kinds) still alive: every pop must return. (attachrace) recv() and "
          "recv_multipart() blocked without timeout on SUB/PULL/DEALER/ROUTER/REP while a tcp/ipc connection is attaching (0..4 ms sweep) and "
-         "close()+term() or term() alone run: both calls must have returned 5 s after term() did. (thorough only) the chaos and attachrace "
+         "close()+term() or term() alone run: both calls must have returned 5 s after term() did. (closeonly) close() alone, no term(): a "
+         "PUSH/DEALER/REQ/SUB/ROUTER/PULL with 1..3 connects to tcp ports / ipc paths nobody listens on (RECONNECT_IVL 10/50/100 ms), optionally "
+         "one live peer, closed together with the last connect() (join!), right after it, 0..3 ms or 5..120 ms later, on a current-thread and a "
+         "4-worker runtime; then listeners are started on the old targets: nobody may connect; within 3 s live actors and registered sockets "
+         "must be 0 and tokio alive tasks back to the pre-case value; send() on the closed socket and term() return promptly. (thorough only) the chaos and attachrace "
          "layers again under ThreadSanitizer (all wall-clock bounds x10), whose 10x slowdown widens the windows between the actors; TSan reports "
          "are attributed by sanparse.py.",
     assumptions=["task/fd baselines are taken inside the same runtime just before each history",
@@ -315,6 +319,7 @@ PROPS["C16"] = dict(
     shards=lambda tier, seed: sharded("c16", _n(tier, 8, 16), _n(tier, 300, 1500))
     + [dict(bin="c16", args=["--only", "rpqclose"], timeout=300, name="c16-rpqclose")]
     + sharded("c16", _n(tier, 2, 4), 900, extra=["--only", "attachrace"], name="c16-attachrace")
+    + sharded("c16", _n(tier, 4, 8), _n(tier, 600, 1800), extra=["--only", "closeonly"], name="c16-closeonly")
     + ([dict(bin="c16", flavour="tsan", args=["--tier", "quick", "--shard", "%d/4" % i], timeout=1500, name="c16-tsan-%d" % i) for i in range(4)]
        + [dict(bin="c16", flavour="tsan", args=["--tier", "quick", "--only", "attachrace", "--cases", 120, "--shard", "%d/4" % i], timeout=1500, name="c16-tsan-attachrace-%d" % i) for i in range(4)]
        if tier == "thorough" else []),
